@@ -14,7 +14,7 @@ def main(only):
         if only and sid not in only and sid[:3] not in only:
             continue
         pid = sid[:3]
-        wt = '/tmp/recheck_wt'
+        wt = '/tmp/recheck_wt_%d' % os.getpid()
         sh('git -C /repo worktree remove --force %s' % wt)
         sh('git -C /repo worktree add -q --detach %s HEAD' % wt)
         ap = sh('git -C %s apply %s/patch.diff' % (wt, d))
@@ -24,21 +24,29 @@ def main(only):
             continue
         env = 'PYTHONHASHSEED=0 PYTHONDONTWRITEBYTECODE=1 LC_ALL=C.UTF-8 TZ=UTC PYTHONPATH=%s VERIF_REPO=%s' % (wt, wt)
         ck = sh('cd /verif && %s /venv/bin/python harness/check.py %s --tier quick' % (env, pid))
-        sh('git -C /repo worktree remove --force %s' % wt)
         lines = [l for l in ck.stdout.split('\n') if l.startswith('VIOLATION')]
+        # the first failing input must reproduce on the tree that carries the change, and must NOT on the unchanged tree
+        rep = [l.split('replay=')[1].split()[0] for l in lines if 'no-failing-input-found' not in l][:1]
+        rp = {}
+        if rep:
+            a = sh('cd /verif && %s /venv/bin/python harness/check.py %s --replay %s' % (env, pid, rep[0]))
+            b = sh('cd /verif && PYTHONHASHSEED=0 PYTHONDONTWRITEBYTECODE=1 LC_ALL=C.UTF-8 TZ=UTC PYTHONPATH=/repo /venv/bin/python harness/check.py %s --replay %s' % (pid, rep[0]))
+            rp = {'replay': rep[0], 'reproduces_with_change': 'property fails on this input' in a.stdout, 'silent_on_unchanged_tree': 'no failure reproduced' in b.stdout}
+        sh('git -C /repo worktree remove --force %s' % wt)
         res = {'caught': ck.returncode == 1 and bool(lines),
                'with_failing_input': any('no-failing-input-found' not in l for l in lines),
                'violation_lines': lines[:3], 'summary': [l for l in ck.stdout.split('\n') if ' quick: ' in l][-1:]}
         m = re.search(r'(\d+) disagreements, (\d+) oracle failures', ck.stdout)
         if m:
             res['tie_disagreements'], res['oracle_failures'] = int(m.group(1)), int(m.group(2))
+        res.update(rp)
         meta = json.load(open(d + '/meta.json'))
         meta['check_result'] = res
         json.dump(meta, open(d + '/meta.json', 'w'), indent=1)
         r = summ.setdefault(sid, {'id': sid, 'property': pid})
         r.update({'caught': res['caught'], 'caught_with_failing_input': res['with_failing_input'], 'check_violation_lines': res['violation_lines'],
                   'check_summary': res['summary'], 'tie_disagreements': res.get('tie_disagreements'), 'oracle_failures': res.get('oracle_failures')})
-        print(sid, 'caught' if res['caught'] else 'MISSED', 'with input' if res['with_failing_input'] else '', res['summary'])
+        print(sid, 'caught' if res['caught'] else 'MISSED', 'with input' if res['with_failing_input'] else '', 'replay:%s/%s' % (rp.get('reproduces_with_change'), rp.get('silent_on_unchanged_tree')) if rp else '', res['summary'])
         sys.stdout.flush()
     json.dump(sorted(summ.values(), key=lambda r: r['id']), open('/verif/seeded/SUMMARY.json', 'w'), indent=1)
 
